@@ -80,7 +80,7 @@ Fixpoint sel2 (tg : N -> strig) (szf : N -> N) (hc lm : bool) (x : sctx2) (d : N
                   flat_map (sel2 tg szf hc lm x' d) kids
                 else
                 let ks := flat_map (sel2 tg szf hc lm x' (d + 1)) kids in
-                if ((thr' <? t1 - t0) && (negb hc || sc g)) || str g || negb (is_nil ks) then E_ a t0 d :: ks ++ [X_ a t1 d] else []
+                if ((thr' <=? t1 - t0) && (negb hc || sc g)) || str g || negb (is_nil ks) then E_ a t0 d :: ks ++ [X_ a t1 d] else []
               else
                 (* beyond the depth limit: not shown; a time= trigger still governs what is below *)
                 flat_map (sel2 tg szf hc lm {| dead2 := false; scope2 := scope2 x; budget2 := budget2 x; lim2 := lim2 x;
